@@ -94,7 +94,7 @@ def case_kfl(**p):
   dom = []
   if not p.get('clip', True):
     dom = [z3.And(v >= 0, v <= ls - 1) for v in x.reshape(-1)]
-  mono = list(p['mono']) if p['mono'] is not None else [0] * dims
+  mono = [1 if mm in (1, 'increasing') else 0 for mm in p['mono']] if p['mono'] is not None else [0] * dims  # documented spellings
   wit = dict(x=x, s=s_raw, k=k_raw)
   if bsym is not None:
     wit['b'] = bsym
@@ -201,6 +201,11 @@ def cases(tier, seed):
           add(ls=2, dims=2, units=2, terms=1, mono=mono, omin=omin, omax=omax, mode=mode, required=not two, timeout=100 if not two else 30)
   add(ls=2, dims=2, units=1, terms=1, mono=[1, 0], omin=0.0, omax=1.0, mode='scale-first', clip=False)
   add(ls=3, dims=2, units=1, terms=1, mono=[1, 1], omin=None, omax=None, mode='kernel-first', clip=False, required=False)
+  # the documented string spellings of the monotonicities
+  for mono_s in (['increasing', 'none'], ['none', 'increasing'], [1, 'increasing']):
+    add(ls=3, dims=2, units=1, terms=1, mono=mono_s, omin=None, omax=None, mode='kernel-first')
+    if tier == 'thorough':
+      add(ls=2, dims=2, units=2, terms=1, mono=mono_s, omin=-1.0, omax=2.0, mode='finalize', required=False, timeout=300)
   # bounds whose interval does not contain 0 / is far from 0 (midpoint and half-width differ in sign or size)
   for (lo, hi) in ((2.0, 3.0), (-4.0, -3.0), (1.0, 2.5)):
     for mode in ('scale-first', 'finalize'):
